@@ -1,13 +1,418 @@
-"""Model-free property monitors on the real code (DESIGN.md §4, 'search oracle' of each property).
-Each returns {name, cases, distinct_nontrivial, rule, samples, failing:[{signature, input, what}], wall_s}."""
-import time
+"""Model-free property monitors on the real code (DESIGN.md §4, 'search oracle' of each property): parent side.
+Each monitor builds cases from the run's seed (plus the disagreeing cases handed over by the correspondence stage and the
+witnesses of the known findings), runs them in the worker pool (tools/monimpl.py) and returns
+{name, cases, distinct_nontrivial, rule, samples, failing:[{signature, what, input}], wall_s}."""
+import json, random, re, time
+import corr, gens, gens2, histgen, layoutgen, proggen, sqimpl
+from sqimpl import hx
 
 
-def _empty(name, rule=''):
-    return {'name': name, 'cases': 0, 'distinct_nontrivial': 0, 'rule': rule, 'samples': [], 'failing': [], 'wall_s': 0.0}
+def big(ctx):
+    return ctx['tier'] == 'thorough' or ctx.get('escalate')
+
+
+def _run(name, mon, payloads, rule, samples=None):
+    t0 = time.time()
+    lines = [f'MON {mon} ' + json.dumps(p) for p in payloads]
+    outs = corr.run_impl(lines)
+    failing, nontriv, crashed = [], set(), 0
+    for l, o in zip(lines, outs):
+        if o.startswith('X worker-crash'):
+            failing.append({'signature': 'interpreter-crash', 'what': 'the worker process died on this case', 'input': l[:400]})
+            continue
+        if o.startswith('HARNESS-ERROR') or o.startswith('X '):
+            crashed += 1
+            continue
+        try:
+            r = json.loads(o)
+        except Exception:
+            crashed += 1
+            continue
+        failing += r.get('fail', [])
+        if r.get('nontrivial'):
+            nontriv.add(l)
+    step = max(1, len(payloads) // 4)
+    return {'name': name, 'cases': len(payloads), 'distinct_nontrivial': len(nontriv), 'rule': rule,
+            'samples': samples or [json.dumps(p)[:300] for p in payloads[::step][:4]], 'failing': failing,
+            'harness_errors': crashed, 'wall_s': time.time() - t0}
+
+
+def _merge(name, parts):
+    out = {'name': name, 'cases': 0, 'distinct_nontrivial': 0, 'rule': ' | '.join(p['rule'] for p in parts), 'samples': [], 'failing': [],
+           'harness_errors': 0, 'wall_s': 0.0}
+    for p in parts:
+        out['cases'] += p['cases']
+        out['distinct_nontrivial'] += p['distinct_nontrivial']
+        out['samples'] += p['samples'][:2]
+        out['failing'] += p['failing']
+        out['harness_errors'] += p.get('harness_errors', 0)
+        out['wall_s'] += p['wall_s']
+    return out
+
+
+def _eval_lines_from(ctx):
+    """EVAL lines among the disagreements of the correspondence stage (searched first)"""
+    return [d['line'] for d in ctx.get('disagreements', []) if d.get('line', '').startswith('EVAL ')][:200]
 
 
 def rerun_witness(ctx, entry):
-    """re-run the recorded witness of a known finding; returns a failing record if it still reproduces"""
-    import witness
-    return witness.rerun(ctx, entry)
+    return None      # witnesses are part of the monitors' own case lists (so they are re-run on every check)
+
+
+# ------------------------------------------------------------------ C01
+def monitor_c01(ctx):
+    n = 6000 if big(ctx) else 600
+    pays = []
+    for l in _eval_lines_from(ctx):
+        m = re.search(r'\(budget (\d+)\)', l)
+        if m:
+            pays.append({'line': l, 'budget': int(m.group(1))})
+    for i in range(n):
+        rng = random.Random(f'{ctx["seed"]}/mon-c01/{i}')
+        if i % 3 == 0:
+            l = gens2.scope_cases(f'{ctx["seed"]}-m{i}', 1)[0][0]
+        else:
+            l, _, _ = proggen.eval_case(rng, budget=100000)
+        b = rng.choice([1, 2, 3, 5, 8, 13, 21, 34, 60, 100])
+        pays.append({'line': l, 'budget': b})
+    a = _run('c01', 'c01', pays, 'programs (incl. ast_names lambdas) at budgets 1..100: independent count of node evaluations vs N; '
+             're-run at 10N (monotone); probe log of the aborted run is a prefix of the unbounded run')
+    cross = [{'define': 'f = n => n + 1 + 1 + 1 + 1 + 1 + 1', 'call': 'f(1)', 'N': 4},
+             {'define': 'g = l => map(l, v => v * 2)', 'call': 'g([1, 2, 3, 4, 5])', 'N': 6}]
+    b = _run('c01_cross', 'c01_cross', cross, 'a lambda defined by an earlier eval on a shared names mapping, invoked by a later eval with budget N')
+    return _merge('c01', [a, b])
+
+
+# ------------------------------------------------------------------ C02
+def monitor_c02(ctx):
+    names = list(sqimpl.load().functions.FUNCTIONS.keys())
+    cases = gens2.builtin_cases(ctx['seed'], names, 3000 if big(ctx) else 300)
+    pays = [{'line': l} for l in _eval_lines_from(ctx)] + [{'line': c[0]} for c in cases]
+    for i in range(3000 if big(ctx) else 300):
+        rng = random.Random(f'{ctx["seed"]}/mon-c02/{i}')
+        pays.append({'line': proggen.eval_case(rng)[0]})
+    pays.append({'line': gens2.eval_line('dict[0]')})
+    pays.append({'line': gens2.eval_line('x = dict["a"]; [x]')})
+    return _run('c02', 'c02', pays, 'every builtin x argument shapes + random programs: deep type walk of every node result, the result and '
+                'the final names; Python audit events (open/os/subprocess/socket/import/exec/compile/ctypes) during eval')
+
+
+# ------------------------------------------------------------------ C03
+def monitor_c03(ctx):
+    n = 1500 if big(ctx) else 150
+    pays = [{'line': l} for l in _eval_lines_from(ctx)]
+    for c in gens2.ops_cases(ctx['seed'], n, 1, big_every=6):
+        pays.append({'line': c[0]})
+    big_l = '(L 1' + ' I:0' * 6000 + ')'
+    big_s = 'S:' + hx('ab' * 3000)
+    for src, ent in [('h + h', f'(S:{hx("h")} {big_l})'), ('h += h; len(h)', f'(S:{hx("h")} {big_l})'),
+                     ('x = h + h; len(x)', f'(S:{hx("h")} {big_l})'), ('sum([h, h])', f'(S:{hx("h")} {big_l})'),
+                     ('s += s; map(s, v => v) | len', f'(S:{hx("s")} {big_s})'), ('s += s; len(enumerate(s))', f'(S:{hx("s")} {big_s})'),
+                     ('s += s; len(sorted(s))', f'(S:{hx("s")} {big_s})'), ('s += s; len(split(s, "a"))', f'(S:{hx("s")} {big_s})'),
+                     ('s += s; len(match_all(s, "."))', f'(S:{hx("s")} {big_s})'), ('h *= 2; len(h)', f'(S:{hx("h")} {big_l})')]:
+        pays.append({'line': gens2.eval_line(src, ent, budget=100000)})
+    a = _run('c03', 'c03', pays, 'container op sequences around the cap + concatenation / str->list witnesses: length of every list / dict '
+             'returned by a node or reachable from result / names vs max(10000, longest host container or str, longest literal)')
+    b = _run('c03_adders', 'c03_adders', [{'stmts': [['push(c, 1)', ['list']], ['c.push(1)', ['list']], ['insert(c, 0, 1)', ['list']], ['c[0] = 1', ['list', 'dict']],
+                                                      ['c["k"] = 1', ['dict']], ['c[0] += 1', ['list']], ['c["0"] += 1', ['dict']],
+                                                      ['push(c, 1, 2, 3)', []], ['c | push(1)', ['list']], ['c.push(1, 2)', []],
+                                                      ['insert(c, 0, 1, 2)', []], ['c | push(1, 2, 3, 4, 5)', []]]}],
+             'each element-adding operation on lists and dicts of exactly 10000 and 10001 elements: ParserError and container unchanged')
+    return _merge('c03', [a, b])
+
+
+# ------------------------------------------------------------------ C04
+def monitor_c04(ctx):
+    pays = [{'line': l} for l in _eval_lines_from(ctx)]
+    for c in gens2.num_cases(ctx['seed'], 20000 if big(ctx) else 2000):
+        pays.append({'line': c[0].replace(' (modelparser)', '')})
+    e = lambda src, ent='': gens2.eval_line(src, ent, hostfns=False)
+    big30 = f'(S:{hx("a")} I:{10 ** 30}) (S:{hx("b")} I:{10 ** 30})'
+    pays += [{'line': e('a *= b; a', big30)}, {'line': e('s *= 3; s', f'(S:{hx("s")} S:{hx("ab")}) ')}, {'line': e('l = [a]; l[0] *= b; l', big30)},
+             {'line': e('int(10 ** 99)')}, {'line': e('int(a)', f'(S:{hx("a")} D:0:1:3000:b)')}, {'line': e('floor(a)', f'(S:{hx("a")} D:0:1:3000:b)')},
+             {'line': e('sum(l)', f'(S:{hx("l")} (L 1' + f' I:{10 ** 30 - 1}' * 12 + '))')}, {'line': e('a * b', big30)}, {'line': e('a ** 2', big30)}]
+    return _run('c04', 'c04', pays, 'numeric expression trees / compound assignments / numeric builtins over host ints, bools, Decimals: type of the '
+                'result of * ** *=, digit count of every arithmetic node and numeric builtin vs max(28, 1 + widest numeric argument)')
+
+
+# ------------------------------------------------------------------ C05
+ADVERSARIAL = [('(a+)+$', "('a' * 28 + 'b')"), ('(a|aa)+$', "('a' * 40 + 'b')"), ('(.*a){12}', "('a' * 30 + 'b')"), ('(x+x+)+y', "('x' * 30)"),
+               ('^(([a-z])+.)+[A-Z]([a-z])+$', "('a' * 40 + '!')"), ('(\\w+)\\1+$', "('ab' * 5000 + 'c')"), ('(a*)*b', "('a' * 30)"),
+               ('(?:a|a)+b|a+c', "(('a' * 15 + 'c') * 500)"), ('a{1,30}a{1,30}a{1,30}b', "('a' * 80)"), ('(?r)(a+)+b', "('c' + 'a' * 30)"),
+               ('(?:fox){e<=3}', "('the quick brown f0x ' * 2000)"), ('.*.*.*.*x', "('y' * 400)"), ('[a-z]+', "('hello world ' * 8000)"),
+               ('\\d+', "('1' * 100000)"), ('^(\\S+\\s+\\S+\\s+\\S+\\s+\\S+\\s+\\S+\\s+\\S+\\s+\\S+\\s+\\S+\\s+\\S+\\s+\\S+\\s+\\S+\\s+\\S+\\s+\\S+)$', "('a b c d e f g h i j k l m')"),
+               ('((a{100}){100}){400}', "('a')")]
+
+
+def monitor_c05(ctx):
+    pays = []
+    for pat, subj in ADVERSARIAL:
+        for fn in ('match', 'match_groups', 'match_all'):
+            pays.append({'fn': fn, 'pattern': pat, 'subject_expr': subj, 'flags': []})
+    n = 400 if big(ctx) else 40
+    for i in range(n):
+        r = random.Random(f'{ctx["seed"]}/mon-c05/{i}')
+        atoms = ['a', 'b', '.', '\\w', '[ab]', '(a|b)', '(a|ab)', 'a?', '\\d']
+        pat = ''
+        for _ in range(r.randint(1, 4)):
+            a = r.choice(atoms)
+            pat += r.choice(['(%s%s)%s' % (a, r.choice(['+', '*', '']), r.choice(['+', '*', '{2,}', ''])), a + r.choice(['+', '*', '?', ''])])
+        pat += r.choice(['$', 'c', '', 'b$'])
+        subj = "('%s' * %d + '%s')" % (r.choice(['a', 'ab', 'aab']), r.choice([20, 30, 200, 3000]), r.choice(['', '!', 'c']))
+        pays.append({'fn': r.choice(['match', 'match_groups', 'match_all']), 'pattern': pat, 'subject_expr': subj,
+                     'flags': r.choice([[], ['i'], ['ms']])})
+    return _run('c05', 'c05', pays, 'adversarial corpus (nested / overlapping quantifiers, alternations, counted repeats, back-references, fuzzy and '
+                'reverse matching, subjects to 10^5 chars) + seeded random patterns x the three builtins: wall-clock per call in an isolated worker '
+                '(regex cache purged); failing = more than 1 s; compile time of the same pattern measured separately')
+
+
+# ------------------------------------------------------------------ C06
+BIN = ['+', '-', '*', '/', '**', '==', '!=', '<', '>', '<=', '>=', 'in', 'not in', 'and', 'or']
+
+
+def monitor_c06(ctx):
+    pays = [{'o1': a, 'o2': b} for a in BIN for b in BIN]
+    a = _run('c06', 'c06', pays, 'all 225 ordered pairs of binary operators on atom operands: the tree of `a o1 b o2 c` vs the parenthesisation '
+             'dictated by the live lexer.precedence table (model-free)')
+    b = _run('c06_derivable', 'c06_derivable', [{}], 'texts the published grammar derives that must be accepted')
+    return _merge('c06', [a, b])
+
+
+# ------------------------------------------------------------------ C08
+def monitor_c08(ctx):
+    n = 30000 if big(ctx) else 3000
+    pays = []
+    for i in range(n):
+        r = random.Random(f'{ctx["seed"]}/mon-c08/{i}')
+
+        def ex(d=0):
+            if d > 3 or r.random() < 0.3:
+                return gens2.tie_literal(r) if r.random() < 0.2 else gens2.num_literal(r)
+            k = r.randrange(6)
+            if k <= 3:
+                return f'({ex(d + 1)} {r.choice("+-*/")} {ex(d + 1)})'
+            if k == 4:
+                return f'(-{ex(d + 1)})'
+            return gens2.num_literal(r)
+        src = ex() if r.random() < 0.7 else f'{ex()} {r.choice(["==", "!=", "<", ">", "<=", ">="])} {ex()}'
+        pays.append({'src': src})
+    pays += [{'src': '0.1 + 0.2 == 0.3'}, {'src': '0.1 + 0.2'}, {'src': '100000000000000000000000000001 - 100000000000000000000000000000'},
+             {'src': '0.10000000000000000000000000001 == 0.1'}, {'src': '1 / 3 * 3'}, {'src': '2.5 + 2.50 == 5'}]
+    return _run('c08', 'c08', pays, 'expression trees over decimal literals (1..40 digits, forced ties at the 28th digit) with + - * / unary minus and '
+                'comparisons vs exact fractions.Fraction arithmetic rounded half-even to 28 digits per operation (literal TEXTS read from the source)')
+
+
+# ------------------------------------------------------------------ C09
+def monitor_c09(ctx):
+    pays = [{'line': l} for l in _eval_lines_from(ctx)]
+    for c in gens2.probe_cases(ctx['seed'], 20000 if big(ctx) else 3000):
+        pays.append({'line': c[0].replace(' (modelparser)', '')})
+    return _run('c09', 'c09', pays, 'probe shapes: every probe called at most as often as it occurs in the source (lambda-free programs); in '
+                'programs without and/or/if the probes run in source order up to the first failure (source-level oracle)')
+
+
+# ------------------------------------------------------------------ C10
+def monitor_c10(ctx):
+    pays = [{'line': l} for l in _eval_lines_from(ctx)]
+    for c in gens2.scope_cases(ctx['seed'], 10000 if big(ctx) else 1500):
+        pays.append({'line': c[0]})
+    a = _run('c10', 'c10', pays, 'scope programs: identity and contents of FUNCTIONS before/after; no name that is not assigned at top level '
+             'may appear in the host mapping')
+    b = _run('c10_noname', 'c10_noname', [{'srcs': ['len = 3', 'zz = 1', 'f = v => v', 'len([1, 2])']}, {'srcs': ['x = 5', 'x']}],
+             'eval without a names mapping must not write into the builtin table')
+    return _merge('c10', [a, b])
+
+
+# ------------------------------------------------------------------ C11 / C17
+def _hist_payloads(ctx, tag, n, caches):
+    texts = histgen.pool(ctx['seed'])
+    out = []
+    for i in range(n):
+        rng = random.Random(f'{ctx["seed"]}/{tag}/{i}')
+        cache = rng.choice(caches)
+        line, calls = histgen.history(rng, texts, cache)
+        heap = re.search(r'\(heap (\(U .*?\))\) \(calls', line).group(1)
+        out.append({'heap': heap, 'calls': [list(c) for c in calls], 'cache': cache})
+    return out
+
+
+def monitor_c11(ctx):
+    pays = _hist_payloads(ctx, 'mon-c11', 4000 if big(ctx) else 250, ['none'])
+    a = _run('c11', 'c11', pays, 'histories of parse / eval / list_names (partially consumed) / host mutation on one SqParser: every call '
+             'repeated on a freshly constructed SqParser with deep-copied equal arguments; result / exception class and message compared')
+    b = _run('c11_repeat', 'c11_repeat', [{'define': 'f = n => n + 1 + 1 + 1 + 1 + 1 + 1 + 1 + 1 + 1 + 1', 'call': 'f(1)', 'N': 30, 'times': 9}],
+             'the same eval call with equal arguments repeated on one parser')
+    return _merge('c11', [a, b])
+
+
+def monitor_c17(ctx):
+    pays = _hist_payloads(ctx, 'mon-c17', 4000 if big(ctx) else 250, ['dict', 'lru2', 'evict'])
+    return _run('c17', 'c17', pays, 'a cached (dict / LRU(2) / always-evicting) and an uncached SqParser driven in lock-step over the same history; '
+                'attribute-level snapshot of every cached tree around each call')
+
+
+# ------------------------------------------------------------------ C12
+def monitor_c12(ctx):
+    pays = [{'line': l} for l in _eval_lines_from(ctx)]
+    for c in gens2.alias_cases(ctx['seed'], 10000 if big(ctx) else 1500):
+        pays.append({'line': c[0]})
+    return _run('c12', 'c12', pays, 'all assignment forms from host objects, then non-linking mutations through either side: the mutable objects '
+                'reachable from the stored value and from the source (id-sets) must be disjoint')
+
+
+# ------------------------------------------------------------------ C13
+def monitor_c13(ctx):
+    names = list(sqimpl.load().functions.FUNCTIONS.keys())
+    dec = lambda v: {'$': 'dec', 'v': v}
+    fl = lambda v: {'$': 'float', 'v': v}
+    fn = lambda v: {'$': 'fn', 'v': v}
+    shapes = [[3, 1, 2], [dec('1.5'), dec('2')], [fl(0.1), fl(0.2), fl(2.5)], ['b', 'a'], [[1, 2], [3]], [[3], [1, 2]], {'$': 'dict', 'v': [['a', 1], ['b', [1, 2]]]},
+              {'$': 'dict', 'v': [['k', {'$': 'dict', 'v': [['z', 1]]}]]}, 'abc', 'a,b', 5, dec('2.5'), fl(0.2), None, True, [], {'$': 'dict', 'v': []},
+              [None, 'a', 1], {'$': 'tuple', 'v': [1, [2]]}, [[fl(1.5)], [fl(0.1)]]]
+    argsets = [[s] for s in shapes]
+    for s in shapes[:9]:
+        for t in [fn('ident'), fn('const'), fn('neg'), fn('first'), 0, 1, 'a', ',', fl(0.2), dec('1'), [1], None, True, fn('len')]:
+            argsets.append([s, t])
+    for s in shapes[:7]:
+        argsets += [[s, fn('ident'), True], [s, None, True], [s, 'a', 'b'], [s, 0, 5], [s, fn('first'), False]]
+    chunks = [names[i:i + 3] for i in range(0, len(names), 3)]
+    pays = [{'names': ch, 'argsets': argsets} for ch in chunks]
+    return _run('c13', 'c13', pays, 'every non-mutator of FUNCTIONS called directly with lists / dicts / nested / host-float / tuple / str arguments, '
+                'key functions and reverse flags: deep type-and-value snapshot of every argument before vs after')
+
+
+# ------------------------------------------------------------------ C14
+def monitor_c14(ctx):
+    n = 20000 if big(ctx) else 2000
+    pays = []
+    D = lambda s: {'d': s}
+    for i in range(n):
+        r = random.Random(f'{ctx["seed"]}/mon-c14/{i}')
+        if r.random() < 0.55:
+            init = [r.choice([1, 2, 'a', None]) for _ in range(r.choice([0, 1, 2, 3, 5]))]
+            keys = [0, 1, -1, 2, -2, 5, -6, D('1.5'), D('0.9'), D('-0.5'), D('-1.5'), D('2'), D('-2.5'), 7]
+            ops = []
+            for _ in range(r.randint(1, 12)):
+                k = r.choice(keys)
+                ops.append(r.choice([['push', r.choice([7, 'z'])], ['pop'], ['popi', k], ['read', k], ['write', k, 9], ['len'], ['in', r.choice([1, 'a', 7])],
+                                     ['index_of', r.choice([1, 'a', 7])], ['insert', r.choice([0, 1, -1, 9]), 4], ['read', k], ['read', k]]))
+            pays.append({'kind': 'list', 'init': init, 'ops': ops})
+        else:
+            init = [[k, i] for i, k in enumerate(r.sample(['a', 'b', '1', '0', 'None', 'True', '1.0'], r.randint(0, 4)))]
+            keys = ['a', 'b', 1, 0, D('1'), D('1.0'), D('1.50'), True, None, -1, 'None', '1', 'True', D('-0')]
+            ops = []
+            for _ in range(r.randint(1, 12)):
+                k = r.choice(keys)
+                ops.append(r.choice([['write', k, r.choice([5, 'v'])], ['read', k], ['get', k], ['del', k], ['len'], ['keys'], ['values'], ['read', k]]))
+            pays.append({'kind': 'dict', 'init': init, 'ops': ops})
+    return _run('c14', 'c14', pays, 'random operation sequences (one op per eval call on a shared names mapping) against a pure-Python list / '
+                'string-keyed-dict model written from the property text; keys: ints, negative, out-of-range, decimals incl. negative fractions, '
+                'bool, None, str')
+
+
+# ------------------------------------------------------------------ C15
+def monitor_c15(ctx):
+    n = 30000 if big(ctx) else 3000
+    pays = []
+    for i in range(n):
+        r = random.Random(f'{ctx["seed"]}/mon-c15/{i}')
+        a, b = layoutgen.layout_pair(r)
+        p = {'plain': a, 'decorated': b}
+        if i % 10 == 0:
+            p['poison'] = [None, r.choice(['f(1', '[1, 2', '{1: 2', 'g(1 +'])]
+        pays.append(p)
+    return _run('c15', 'c15', pays, 'metamorphic: parse(plain) == parse(decorated) for random programs and random combinations of the rewrites at '
+                'every applicable position; every 10th pair also after an earlier rejected unbalanced text on the same parser')
+
+
+# ------------------------------------------------------------------ C16
+def monitor_c16(ctx):
+    n = 30000 if big(ctx) else 4000
+    pays = []
+    exotic = ['\x00', '\x07', '\r', '\x0c', '\x7f', '\x85', '', '\ud800', '\U0010ffff', '​', 'é', '€', '　', '\x1b', '²']
+    for i in range(n):
+        r = random.Random(f'{ctx["seed"]}/mon-c16/{i}')
+        k = r.randrange(6)
+        if k == 0:
+            s = ''.join(r.choice(gens.LEX_ALPHABET + exotic + ['x', '(', ')', '{', ',', '|']) for _ in range(r.randint(0, 12)))
+        elif k == 1:
+            t = layoutgen.layout_pair(r)[1]
+            s = t[:r.randrange(len(t) + 1)]
+        elif k == 2:
+            s = layoutgen.error_text(r)
+        elif k == 3:
+            s = r.choice(['(' * r.randint(1, 400), '[' * 300 + '1' + ']' * 299, '-' * 500 + '1', 'not ' * 300 + 'x', 'a' + '[0]' * 300, '"' + 'a' * 5000,
+                          '1' * 5000, 'x' * 5000, '%' + 'a' * 3000, '(' * 200 + 'x' + ')' * 200, '{' * 100])
+        elif k == 4:
+            s = r.choice(exotic) + r.choice(['', ' 1', 'x']) if r.random() < 0.5 else 'x ' + r.choice(exotic)
+        else:
+            s = ''.join(chr(r.choice([r.randrange(32, 127), r.randrange(0x20, 0x3000), r.randrange(0, 32)])) for _ in range(r.randint(1, 10)))
+        pays.append({'src': s, 'apis': ['parse', 'names', 'eval']})
+    planted = ['undefined_var', 'nofn(1)', 'u += 1', '[1,2][5]', '{"a": 1}["b"]', 'pop([])', '"abc"[7]', 'items({"a": 1})[0][2]', 'enumerate([1])[0][5]',
+               'for', '1 $ 2', '1 +', 'f(', 'x = [0]\nx[5]', 'd = {}\nd["k"]']
+    ctxs = ['{E}', '[1, {E}]', 'len({E})', '{{"k": {E}}}', '{{{E}: 1}}', '[1,2,3][{E}:]', '[1,2,3][{E}]', 'apply(v => {E}, 1)', '{E} if True else 1',
+            '1 if {E} else 2', 'x = {E}', 'x = [0]\nx[0] = {E}', 'x = [0]\nx[0] += {E}', 'x = 1\nx += {E}', '-{E}', 'not {E}', '1 + {E}',
+            'map([1], v => {E})', 'str({E})', 'sorted([2, 1], v => {E})']
+    for pl in planted:
+        for c in ctxs:
+            if '\n' in pl and c != '{E}':
+                continue
+            src = c.replace('{E}', pl).replace('apply(', '(w => w)(') if False else c.replace('{E}', pl)
+            if 'apply' in src:
+                continue
+            pays.append({'src': src, 'apis': ['eval'], 'planted': True})
+    for b in (1, 2, 3, 7):
+        pays.append({'src': 'f = n => f(n + 1)\nf(0)', 'apis': ['eval'], 'planted': True, 'budget': b})
+    return _run('c16', 'c16', pays, 'arbitrary Unicode strings (control characters, unnamed / private-use / surrogate code points), truncations at every '
+                'character, deep nesting, erroneous programs through parse / list_names / eval: only ParserError for parse and list_names, only '
+                'Exceptions for eval, a dead worker is a crash; each listed failure planted at 20 syntactic positions must be a ParserError')
+
+
+# ------------------------------------------------------------------ C18
+def monitor_c18(ctx):
+    n = 20000 if big(ctx) else 2500
+    pays = []
+    for i in range(n):
+        r = random.Random(f'{ctx["seed"]}/mon-c18/{i}')
+        k = r.randrange(4)
+        if k == 0:
+            src = layoutgen.layout_pair(r)[1]
+        elif k == 1:
+            src = proggen.eval_case(r, hostfns=False)[1]
+        elif k == 2:
+            nm = r.choice(['%user.name%', '%a.b%', '%a b%', '%order.0%', '%x+y%', '%a%'])
+            src = r.choice([nm, f'{nm} + 1', f'x = {nm}', f'f({nm}, y)', f'cfg = {{key: {nm}, "n": count}}\ncfg'])
+        else:
+            src = r.choice(['cfg = {key: limit, "n": count}\ncfg', 'a.b(c | d(e), f => g)', 'x = [p, q][r:s]', 'del m[k]; m[j] += v', 'list(a, dict())'])
+        pays.append({'src': src, 'names': {'user': {'name': 'Ann'}, 'a': 1, 'order': [1, 2], 'x': 2, 'y': [1, 2, 3], 'key': 'k', 'limit': 3, 'count': 4}})
+    return _run('c18', 'c18', pays, 'list_names vs an identifier scanner written from the property text; keys requested from a recording names '
+                'mapping during eval (plain and caching parser, list_names repeated after eval) must be listed or implicit')
+
+
+# ------------------------------------------------------------------ C19
+def monitor_c19(ctx):
+    n = 400 if big(ctx) else 40
+    pays = []
+    for i in range(n):
+        r = random.Random(f'{ctx["seed"]}/mon-c19/{i}')
+        a = r.choice([0, 1, -5, 10, 10 ** 30, 10 ** 30 + 1, -3, 7, -10 ** 29])
+        b = a + r.choice([0, 0, 1, 2, 5, 100, 10 ** 20])
+        pays.append({'seed': r.randrange(10 ** 9), 'a': a, 'b': b, 'draws': 200 if big(ctx) else 40,
+                     'lists': [[1], [], [1, 2], [3, 1, 2, 9], ['a', 'b', 'c', 'd', 'e'], [[1], [2]]][:r.randint(2, 6)]})
+    for p in pays:
+        p['lists'] = [l for l in p['lists'] if l] + [[7]]
+    return _run('c19', 'c19', pays, 'the REAL random module, many seeded draws per input: bounds a <= b as ints and Decimals incl. a == b, negative '
+                'and 31-digit bounds; rand() in [0,1); rand(list) membership; shuffle is a new permutation, argument unchanged, result not aliased')
+
+
+# ------------------------------------------------------------------ C20
+def monitor_c20(ctx):
+    n = 40000 if big(ctx) else 5000
+    pays = []
+    for i in range(n):
+        r = random.Random(f'{ctx["seed"]}/mon-c20/{i}')
+        pays.append({'src': layoutgen.error_text(r), 'fresh': False})
+    for s in ['1;2 3', '[1,\n2] x', '1 +\n2 2', 'a = 1;\nb = a stray', 'a;\r\nb;\nc d', 'f(1,\n2);\n[3,\n4]; x y', '1 +', 'f(', 'x = [\n1,']:
+        pays.append({'src': s, 'fresh': True})
+    return _run('c20', 'c20', pays, 'valid multi-line programs broken by a stray token / truncation: the physical line of the offending token is '
+                'recomputed from its lexpos (count of \\n before it) and must be the line the message names; end of text -> end-of-input message')
